@@ -223,6 +223,13 @@ std::vector<Op> entity_alphabet(int level) {
     add(2, "m1.createFeature(b2.a1) [other block]", [=](File &f) { M(f, b1, "m1").createFeature(A(f, b2, "a1"), LinkType::Indexed); });
     add(2, "g1.addDataArray(b2.a1) [other block]", [=](File &f) { G(f, b1, "g1").addDataArray(A(f, b2, "a1")); });
     add(2, "t1.feature(0).data(b2.a1) [other block]", [=](File &f) { Tag t = T(f, b1, "t1"); need(t.featureCount() > 0); t.getFeature(0).data(A(f, b2, "a1")); });
+    // ... and with an array whose NAME does not occur in b1 (seed R3)
+    add(2, "t1.createFeature(b2.only2) [other block]", [=](File &f) { T(f, b1, "t1").createFeature(A(f, b2, "only2"), LinkType::Untagged); });
+    add(2, "t1.createFeature(id of b2.only2) [other block]", [=](File &f) { T(f, b1, "t1").createFeature(A(f, b2, "only2").id(), LinkType::Tagged); });
+    add(2, "m1.createFeature(id of b2.only2) [other block]", [=](File &f) { M(f, b1, "m1").createFeature(A(f, b2, "only2").id(), LinkType::Indexed); });
+    add(2, "t1.feature(0).data(id of b2.only2) [other block]", [=](File &f) { Tag t = T(f, b1, "t1"); need(t.featureCount() > 0); t.getFeature(0).data(A(f, b2, "only2").id()); });
+    add(2, "t1.addReference(id of b2.only2) [other block]", [=](File &f) { T(f, b1, "t1").addReference(A(f, b2, "only2").id()); });
+    add(2, "g1.addDataArray(id of b2.only2) [other block]", [=](File &f) { G(f, b1, "g1").addDataArray(A(f, b2, "only2").id()); });
     add(2, "g1.multiTags({m1})", [=](File &f) { Group g = G(f, b1, "g1"); g.multiTags(std::vector<MultiTag>{M(f, b1, "m1")}); });
     add(2, "g1.dataFrames({f1})", [=](File &f) { Group g = G(f, b1, "g1"); g.dataFrames(std::vector<DataFrame>{F(f, b1, "f1")}); });
     add(2, "g1.removeMultiTag(m1)", [=](File &f) { Group g = G(f, b1, "g1"); MultiTag a = M(f, b1, "m1"); need(g.hasMultiTag(a)); g.removeMultiTag(a); });
@@ -423,6 +430,7 @@ void build_seed_r3(File &f) {
     MultiTag m2 = b.createMultiTag("m2", "u", b.getDataArray("a4"));
     g1.addMultiTag(m2);
     c.createDataFrame("f1", "t", std::vector<Column>{{"k", "", DataType::Int32}});   // a frame OUTSIDE b1 (C08: foreign frame as dimension)
+    c.createDataArray("only2", "t", DataType::Double, NDSize({2})).setData(std::vector<double>{7.5, 8.5});   // a name that does not occur in b1
     // entities whose NAME has the shape of an id (the last ones of their containers)
     b.createDataArray("0f1e2d3c-4b5a-4978-8796-a5b4c3d2e1f0", "t", DataType::Double, NDSize({2})).setData(std::vector<double>{1.5, 2.5});
     b.createDataFrame("1f1e2d3c-4b5a-4978-8796-a5b4c3d2e1f1", "t", std::vector<Column>{{"k", "", DataType::Int32}});
